@@ -409,6 +409,23 @@ pub fn ntru_gen(
         let f = gen_poly(n, rng);
         let g = gen_poly(n, rng);
 
+        // f and g must fit the fixed-width fields of the secret key encoding
+        // (same limits as the reference implementation)
+        let fg_limit: i16 = match n {
+            1024 => 15,
+            256 | 512 => 31,
+            64 | 128 => 63,
+            _ => 127,
+        };
+        if f
+            .coefficients
+            .iter()
+            .chain(g.coefficients.iter())
+            .any(|c| c.abs() > fg_limit)
+        {
+            continue;
+        }
+
         let f_ntt = f.map(|&i| Felt::new(i)).fft();
         if f_ntt.coefficients.iter().any(|e| e.is_zero()) {
             continue;
@@ -421,6 +438,15 @@ pub fn ntru_gen(
         if let Some((capital_f, capital_g)) =
             ntru_solve_entrypoint(f.map(|&i| i as i32), g.map(|&i| i as i32))
         {
+            // F and G are stored on 8 bits each; resample if they do not fit
+            if capital_f
+                .coefficients
+                .iter()
+                .chain(capital_g.coefficients.iter())
+                .any(|c| c.abs() > 127)
+            {
+                continue;
+            }
             return (
                 f,
                 g,
